@@ -9,6 +9,7 @@ from nrel.hive.model.sim_time import SimTime
 from nrel.hive.runner.environment import Environment
 from nrel.hive.state.simulation_state import simulation_state_ops
 from nrel.hive.state.vehicle_state.charging_station import ChargingStation
+from nrel.hive.state.vehicle_state.idle import Idle
 from nrel.hive.state.vehicle_state.vehicle_state import (
     VehicleState,
     VehicleStateInstanceId,
@@ -211,6 +212,12 @@ class ChargeQueueing(VehicleState):
                 None,
             )
         else:
+            mechatronics = env.mechatronics.get(vehicle.mechatronics_id)
+            if mechatronics is not None and mechatronics.is_full(vehicle):
+                # a full vehicle has nothing to charge: its turn at the plug would fail ("vehicle is
+                # full") every step and it would keep the head of the queue forever while later
+                # arrivals take the plugs; it leaves the queue instead
+                return None, Idle.build(self.vehicle_id)
             next_state = ChargingStation.build(self.vehicle_id, self.station_id, self.charger_id)
             return None, next_state
 
